@@ -124,7 +124,7 @@ func autoPatterns(vars []Term, body string) [][]Term {
 		isUF := strings.HasPrefix(head, "rd!") || strings.HasPrefix(head, "g!") || head == "select"
 		if isUF {
 			ok, vs := clean(n)
-			if ok && len(vs) > 0 && !seen[n.text] {
+			if ok && len(vs) > 0 && !seen[n.text] && !strings.Contains(n.text, "(ite ") {
 				// select terms only when the array is not itself a bound var
 				seen[n.text] = true
 				cands = append(cands, cand{n.text, vs})
